@@ -45,7 +45,11 @@ def c01_harness(d, sk, name, sabotage=False):
         b.append("let valid: bool = %s;" % d.valid_expr(out))
         b.append("let r = %s::try_new(text);" % d.name)
         if symbolic_validity(d) and not sabotage:
-            b.append("kani::cover!(!valid);" if ("not_empty" in d.validators and len(out) == 0) else "kani::cover!(valid); kani::cover!(!valid);")
+            n_ = len(out)
+            can_invalid = any(v in d.validators for v in ("pred", "regex")) or ("not_empty" in d.validators and n_ == 0) or \
+                (not d.literal and ("min" in d.validators or ("max" in d.validators and n_ > 0)))
+            can_valid = not ("not_empty" in d.validators and n_ == 0)
+            b.append(("kani::cover!(valid); " if can_valid else "") + ("kani::cover!(!valid);" if can_invalid else "") or "kani::cover!(true);")
         else:
             b.append("kani::cover!(true);")
         b.append("match r {\n            Ok(v) => { assert!(valid, \"accepted a value violating a validator\"); let g = v.into_inner(); let gb = g.as_bytes(); assert!(%s, \"stored text is not the declared sanitizers applied in order\"); core::mem::forget(g); }\n"
@@ -90,7 +94,7 @@ def c07_harness(d, sk, name):
 
 def gen_c07(plan, tier, rng):
     src = []
-    orders = [["not_empty", "min", "regex"], ["min", "not_empty", "regex"], ["regex", "min", "not_empty"], ["max", "pred", "not_empty"], ["pred", "max"], ["not_empty", "max", "min", "pred", "regex"],
+    orders = [["max", "pred", "min"], ["min", "not_empty", "max"], ["not_empty", "min", "regex"], ["min", "not_empty", "regex"], ["regex", "min", "not_empty"], ["max", "pred", "not_empty"], ["pred", "max"], ["not_empty", "max", "min", "pred", "regex"],
               ["regex", "pred", "min", "max", "not_empty"]]
     if tier == "thorough":
         orders += [list(p) for p in itertools.permutations(["not_empty", "min", "max", "pred"])][1:12]
@@ -337,6 +341,18 @@ def gen_c13(plan, tier, rng):
             body += c13_pair_harness(d, a, b2, hn)
             plan.add(H(hn, "main", dict(d.describe(), inputs=[skeleton_repr(a), b2])))
         src.append(module(d, body, extra_pre=SINK))
+    # derive-set interaction: Hash derived WITHOUT Borrow / AsRef only
+    d = StrDecl(["trim"], ["not_empty"], derive=["Debug", "Hash", "AsRef", "PartialEq"], modname="c13s_hash_noborrow")
+    st, cells = input_builder(" XY ")
+    out, plans = simulate(d.sanitizers, cells)
+    b = [d.setup()] + st + plan_stmt(plans) + [expect_bytes(out),
+         "let v = match %s::try_new(text) { Ok(v) => v, Err(_) => return };" % d.name, "kani::cover!(true, \"obtainable value\");",
+         "let inner: &str = unsafe { core::str::from_utf8_unchecked(&exp) };",
+         "let mut h1 = RecHasher::new(); let mut h2 = RecHasher::new(); let mut h3 = RecHasher::new();",
+         "v.hash(&mut h1); inner.hash(&mut h2); { let r: &str = v.as_ref(); r.hash(&mut h3); }",
+         "assert!(h1 == h2 && h1 == h3, \"Hash differs from the inner String's hash when Borrow is not derived\"); core::mem::forget(v);"]
+    src.append(module(d, proof("c13_str_hash_noborrow", b, unwind=14), extra_pre=SINK))
+    plan.add(H("c13_str_hash_noborrow", "main", dict(d.describe(), part="Hash vs inner hash, Borrow not derived")))
     return "\n".join(src)
 
 
@@ -347,8 +363,10 @@ def c04_harness(d, sk, name, mode):
     nb = byte_len(out)
     b = [d.setup()] + st + plan_stmt(plans) + [expect_bytes(out)]
     b.append("let valid: bool = %s;" % d.valid_expr(out))
+    b.append("unsafe { NEWTYPE_CALLS = 0; }")
     b.append("let got = <%s as Deserialize>::deserialize(StubDe::new(Ev::Str(text, StrMode::%s)));" % (d.name, mode))
     b.append("kani::cover!(true);")
+    b.append("assert!(unsafe { NEWTYPE_CALLS } == 1 && unsafe { LAST_NEWTYPE_NAME }.len() == %d, \"entry is not deserialize_newtype_struct(<type name>)\");" % len(d.name))
     b.append("match got { Ok(v) => { assert!(valid, \"deserialized a text the constructor rejects\"); let g = v.into_inner(); let gb = g.as_bytes(); assert!(%s, \"deserialized text is not the sanitized text\"); }\n"
              "            Err(_) => { assert!(!valid, \"deserialization failed although the text deserializes as String and the constructor accepts it\"); } }" % eq_bytes("gb", "exp", nb).replace("); }", "); core::mem::forget(g); }", 1))
     return proof(name, b)
@@ -359,7 +377,7 @@ def gen_c04(plan, tier, rng):
     combos = [([], []), (["trim", "lowercase"], ["not_empty", "max"]), (["trim"], ["min", "max"])] if tier == "quick" else \
              [([], []), (["trim", "lowercase"], ["not_empty", "max"]), (["trim"], ["min", "max"]), (["uppercase"], ["pred"]), (["with", "trim"], ["regex"]), (["lowercase"], [])]
     for n, (ch, vs) in enumerate(combos):
-        d = StrDecl(ch, vs, derive=["Debug", "Deserialize"], modname="c04s_%d" % n)
+        d = StrDecl(ch, vs, derive=["Debug", "Deserialize"] + (["PartialEq", "Eq", "Hash", "PartialOrd", "Ord"] if n % 2 == 1 else []), modname="c04s_%d" % n)
         body = ""
         for i, sk in enumerate([" XY ", "", "ÉX "] if tier == "quick" else ["", "X", " XY ", "ÉX ", "_X_"]):
             for mode in ("Borrowed", "Transient", "Owned"):
@@ -513,7 +531,7 @@ def c09_simulate(d, target_len, stream):
     return stored, plans + p3, pos
 
 
-def c09_harness(d, target_len, stream_sk, name, kind_cover=True):
+def c09_harness(d, target_len, stream_sk, name, kind_cover=True, selector=None):
     cells = parse_skeleton(stream_sk)
     sim = c09_simulate(d, target_len, cells)
     if sim is None or len(sim[1]) > 8:
@@ -527,6 +545,8 @@ def c09_harness(d, target_len, stream_sk, name, kind_cover=True):
     words = []
     for c in cells:
         words += [c.rust_bytes()[0], "0", "0", "0"]
+    if selector is not None:
+        words = [str(selector)] + words   # the byte int_in_range consumes to pick target_len (only when min_len != max_len)
     b.append("let data: [u8; %d] = [%s];" % (max(len(words), 1), ", ".join(words) if words else "0"))
     b.append("let mut u = arbitrary::Unstructured::new(&data[..%d]);" % len(words))
     b += plan_stmt(plans)
@@ -568,4 +588,17 @@ def gen_c09(plan, tier, rng):
             body += h[0]
             plan.add(H(hn, "best_effort" if h[1] else "main", dict(d.describe(), target_len=tlen, stream="4-byte words encoding " + skeleton_repr(sk) + " (fillers symbolic ASCII), then exhausted")))
         src.append(module(d, body))
+    # `not_empty` written before a larger `len_char_min`: the generator takes the FIRST minimum (1), so target_len ranges over 1..=2
+    # and a selector byte of 0 picks the too-short length (known finding, see known_findings.json)
+    d = StrDecl([], ["not_empty", "min", "max"], literal={"min": 2, "max": 2}, derive=["Debug", "Arbitrary"], modname="c09s_ne_shadows_min")
+    body = ""
+    for sel, tlen, sk, tag in ((0, 1, "X", "short"), (1, 2, "XY", "full")):
+        hn = "c09_str_c09s_ne_shadows_min_%s" % tag
+        h = c09_harness(d, tlen, sk, hn, selector=sel)
+        body += h[0]
+        if tag == "short":
+            plan.add(H(hn + "", "finding", dict(d.describe(), target_len=tlen, selector_byte=sel), finding="C09-string-not-empty-shadows-len-char-min"))
+        else:
+            plan.add(H(hn, "main", dict(d.describe(), target_len=tlen, selector_byte=sel)))
+    src.append(module(d, body))
     return "\n".join(src)
